@@ -225,6 +225,34 @@ def run_impl(p, arrs):
     return cv, out
 
 
+def failed_step_stream(ctx, rng, n):
+    """'the step leaves the cost volume values unchanged', also when it does not complete: a cost volume that
+    lacks the flags (allocate_cost_volume + compute_cost_volume only, as the library's own unit tests build it) makes
+    to_disp raise; the caller's cost volume must hold the costs it held (its NaN costs included)"""
+    from pandora import disparity  # pylint: disable=import-outside-toplevel
+
+    for i in range(n):
+        p = gen_inf_params(rng)
+        p.update({"inf": False, "nr": rng.choice([2, 5, 101]), "nan_ratio": 0.4})
+        arrs = build_case(p)
+        cv = cv_dataset(p, arrs).drop_vars("validity_mask")
+        before = cv["cost_volume"].data.copy()
+        wta = disparity.AbstractDisparity(**{"disparity_method": "wta", "invalid_disparity": p["invalid"]})
+        try:
+            wta.to_disp(cv)
+            ctx.count("to_disp_without_flags_returned")
+        except Exception as exc:  # pylint: disable=broad-except
+            ctx.count("to_disp_without_flags_raised_" + type(exc).__name__)
+        ctx.traces += 1
+        ctx.case(("failed_step", p["seed"]))
+        if not same(cv["cost_volume"].data, before):
+            k = int(np.sum(~((cv["cost_volume"].data == before) | (np.isnan(cv["cost_volume"].data) & np.isnan(before)))))
+            ctx.violation("wta_cv_changed_by_a_step_that_failed",
+                          f"to_disp on a {p['nr']}x{p['nc']}x{p['nd']} cost volume without validity_mask does not complete, "
+                          f"and {k} costs of the caller's volume differ afterwards (NaN costs replaced by +-inf stay so)",
+                          {"params": p, "without_flags": True})
+
+
 def impl_wire(p, arrs, cv, out):
     nr, nc = p["nr"], p["nc"]
     conf = out["confidence_measure"].data if "confidence_measure" in out.data_vars else np.zeros((nr, nc, 0), np.float32)
@@ -394,8 +422,12 @@ def run(ctx):
     quick = ctx.tier == "quick"
     model = core.Model("x03")
     cases = []
+    if getattr(ctx, "replay_case", None) is None or ctx.replay_case.get("without_flags"):
+        state = rng.getstate()
+        failed_step_stream(ctx, random.Random(rng.randrange(1 << 30)), 6 if quick else 60)
+        rng.setstate(state)
     if getattr(ctx, "replay_case", None) is not None:
-        cases = [ctx.replay_case["params"]]
+        cases = [] if ctx.replay_case.get("without_flags") else [ctx.replay_case["params"]]
     else:
         n_main = 48 if quick else 1500
         for i in range(n_main):
